@@ -616,7 +616,7 @@ func runC12(c *an.Ctx, p *an.Prog, thorough bool) {
 					return
 				}
 				h := gen.Args[0]
-				if !(h.Op == "lookup" && h.Args[1].K == pid.K && h.Args[0].Op == "load" && isStoreField(h.Args[0].Args[0], "Dir", "Params")) {
+				if lk := lookupOf(h); !(lk != nil && lk.Args[1].K == pid.K && lk.Args[0].Op == "load" && isStoreField(lk.Args[0].Args[0], "Dir", "Params")) {
 					bad = append(bad, "hasher is "+h.K+", not store.Params[store.Default]")
 				}
 				if gen.Args[1].K != s.T(whs.Params[1]).K {
